@@ -141,6 +141,7 @@ def run(ctx):
     ctx.cov["per_model"] = per_model
     ctx.cov["steps_validated"] = sum(v["steps"] for v in per_model.values())
     ctx.cov["rule"] = ("per model, TLC prints %d walks of 10..%d operations from <M>Gen.tla with a random configuration "
+                       "given as a sequence of constructor options in a random order and grouping "
                        "(initial children; initial stock with any subset of used/remaining, unit pairs; preset lists; "
                        "mode lists; initial totals; initial reading; initial publications); every operation is one "
                        "line checked on its own pre-state against the step function; non-trivial = the call changed "
@@ -170,7 +171,10 @@ MANIFEST = {
             'violations. Meter and publication run under a stepped harness clock that holds a call right after it has '
             'read the clock and interposes another client\'s call before it commits (the overtaken call must be refused '
             'without effect or leave consistent state); the vending unit alphabet is the whole enum (UNIT_UNSPECIFIED, '
-            'NO_UNIT included) with an all-pairs Convert sweep. '
+            'NO_UNIT included) with an all-pairs Convert sweep. Every configuration is a generated sequence of '
+            'constructor options (both orders, each alone, additive options split and interleaved with a plain resource '
+            'option); the specification folds it into the initial state independently of the order and the first read of '
+            'the constructed model (getter and Pull seed) is compared with that. '
             'Conformance on the generated walks plus bounded model checking of the design; not a '
             'proof.',
     'note': 'Trusted base: TLC 1.8.0 evaluating the TLA+ predicates; the Go abstraction functions in '
